@@ -95,6 +95,14 @@ namespace chaiscript {
     inline std::atomic<std::size_t> hint_stale_recovered{0};         ///< hinted slot missing / other name: re-resolved by name
     inline std::atomic<std::size_t> hint_disagree_nearer_local{0};   ///< hinted slot holds the name, but a nearer binding exists now
     inline std::atomic<std::size_t> hint_disagree_global_shadowed{0};///< hint says global/function, but a local of that name exists now
+    /// called (if set) immediately before every acquisition of an engine lock, never inside a critical section:
+    /// lets a stress harness inject yields/delays between critical sections and record the order of acquisitions
+    inline std::atomic<void (*)(int)> yield_cb{nullptr};
+    inline void yield_point(int t_site) {
+      if (auto *cb = yield_cb.load(std::memory_order_acquire)) {
+        cb(t_site);
+      }
+    }
   } // namespace verif
 } // namespace chaiscript
 #endif
